@@ -2,22 +2,10 @@
    after the model was last aligned with /repo. Committed; checks never rewrite it. *)
 From CV Require Import Model.Base.
 
-Definition frozen_model_add_policy : text := (T "8492594d8b9ee1b7").
-Definition frozen_model_add_policies : text := (T "859173f43a5306da").
-Definition frozen_model_get_policy : text := (T "aba432131c617ecf").
-Definition frozen_model_get_filtered_policy : text := (T "d8dd0797558f1a96").
-Definition frozen_model_has_policy : text := (T "144afbd536fba156").
-Definition frozen_model_get_values_for_field_in_policy : text := (T "8b17eb7db04fd742").
-Definition frozen_model_remove_policy : text := (T "f99bf6dd11a6c891").
-Definition frozen_model_remove_policies : text := (T "133d83e2d57cdbaf").
-Definition frozen_model_remove_filtered_policy : text := (T "6ea2c18b99958b21").
-Definition frozen_fmacros_all : text := (T "1c0b65402f5cf2e7").
 Definition frozen_fmgmtapi_all : text := (T "531585651af18068").
 Definition frozen_frbacapi_all : text := (T "e7aefe767c6b1197").
 Definition frozen_femitter_all : text := (T "ecddd892771c5928").
-Definition frozen_fconvert_all : text := (T "7e7aac52276c0d2c").
 Definition frozen_fcachedenforcer_all : text := (T "236765f061ee1aa8").
-Definition frozen_fdefaultcache_all : text := (T "1d91c993075fd87d").
 Definition frozen_frolemanager_all : text := (T "c66e3c40509a85a3").
 Definition frozen_ferror_all : text := (T "965bce3477fa978f").
 Definition frozen_fadaptermod_all : text := (T "cb8aa7dab4622b86").
